@@ -98,29 +98,33 @@ Proof. reflexivity. Qed.
 
 Lemma st_get_live s id now :
   (forall f, alookup id (st_facts s) = Some f -> fact_expired f now = false) ->
+  st_pending s = [] ->
   st_get s id now = (s, match alookup id (st_facts s) with Some f => Ok f | None => Err "notfound" end).
 Proof.
-  intros H. unfold st_get. destruct (alookup id (st_facts s)) as [f|]; [|reflexivity].
-  rewrite (H f eq_refl). reflexivity.
+  intros H Hp. unfold st_get, get_body. destruct (alookup id (st_facts s)) as [f|].
+  - rewrite (expire_false s id f now (H f eq_refl)). apply with_purge_nil. exact Hp.
+  - apply with_purge_nil. exact Hp.
 Qed.
 
 Lemma get_prop_live l id prop now :
-  prop_live l id prop now -> get_prop l id prop now = (l, prop_val l id prop).
+  prop_live l id prop now -> st_pending (l_state l) = [] ->
+  get_prop l id prop now = (l, prop_val l id prop).
 Proof.
-  intros H. rewrite get_prop_pid, (st_get_live _ _ _ H). unfold prop_val.
+  intros H Hp. rewrite get_prop_pid, (st_get_live _ _ _ H Hp). unfold prop_val.
   destruct (alookup (prop_id id prop) (st_facts (l_state l))); rewrite upd_state_same; reflexivity.
 Qed.
 
 Lemma nothing_expired_live l id prop now : nothing_expired l now -> prop_live l id prop now.
-Proof. intros H f Hf. eapply H; exact Hf. Qed.
+Proof. intros H f Hf. eapply (proj1 H); exact Hf. Qed.
 
 Definition enabled_pure (l : loc) : bool :=
   let e := match prop_val l "" "enabled" with Some (JStr s) => s | _ => "" end in
   String.eqb e "" || String.eqb e "yes" || String.eqb e "true".
 
-Lemma enabled_live l now : prop_live l "" "enabled" now -> enabled l now = (l, enabled_pure l).
+Lemma enabled_live l now :
+  prop_live l "" "enabled" now -> st_pending (l_state l) = [] -> enabled l now = (l, enabled_pure l).
 Proof.
-  intros H. unfold enabled, get_prop_string. rewrite (get_prop_live _ _ _ _ H). unfold enabled_pure.
+  intros H Hp. unfold enabled, get_prop_string. rewrite (get_prop_live _ _ _ _ H Hp). unfold enabled_pure.
   destruct (prop_val l "" "enabled") as [[| | |s| |]|]; reflexivity.
 Qed.
 
@@ -129,13 +133,20 @@ Definition rule_enabled_pure (l : loc) (id : string) : bool :=
   match prop_val l id "disabled" with Some (JBool d) => negb d | _ => true end.
 
 Lemma rule_enabled_live l id now :
-  prop_live l "" "enabled" now -> prop_live l id "disabled" now ->
+  prop_live l "" "enabled" now -> prop_live l id "disabled" now -> st_pending (l_state l) = [] ->
   rule_enabled l id now = (l, rule_enabled_pure l id).
 Proof.
-  intros H1 H2. unfold rule_enabled, rule_enabled_pure. rewrite (enabled_live _ _ H1).
+  intros H1 H2 Hp. unfold rule_enabled, rule_enabled_pure. rewrite (enabled_live _ _ H1 Hp).
   destruct (negb (enabled_pure l)); [reflexivity|].
-  rewrite (get_prop_live _ _ _ _ H2).
+  rewrite (get_prop_live _ _ _ _ H2 Hp).
   destruct (prop_val l id "disabled") as [[|b| | | |]|]; reflexivity.
+Qed.
+
+Lemma rule_enabled_noexp_pure l id now :
+  nothing_expired l now -> rule_enabled l id now = (l, rule_enabled_pure l id).
+Proof.
+  intros Hn. apply rule_enabled_live; [apply nothing_expired_live; exact Hn|
+                                       apply nothing_expired_live; exact Hn|exact (proj2 Hn)].
 Qed.
 
 (** * The flag fact *)
@@ -175,23 +186,26 @@ Lemma disable_adds_flag l c e id l' :
   st_wf (l_state l) -> nothing_expired l (e_now e) ->
   loc_enable_rule l c e id false = (l', Ok tt) ->
   alookup (prop_id id "disabled") (st_facts (l_state l')) = Some (flag_fact id) /\
-  forall j, j <> prop_id id "disabled" ->
-            alookup j (st_facts (l_state l')) = alookup j (st_facts (l_state l)).
+  (forall j, j <> prop_id id "disabled" ->
+             alookup j (st_facts (l_state l')) = alookup j (st_facts (l_state l))) /\
+  st_pending (l_state l') = [].
 Proof.
   intros Hwf Hn H. unfold loc_enable_rule in H. apply gated_ok_noexp in H; [|exact Hn].
   unfold lift in H. rewrite set_prop_fact_disabled in H.
+  pose proof (st_add_pending (l_state l) "" (flag_fact id) (e_now e) (e_fresh e) None) as Hpe.
+  rewrite (proj2 Hn) in Hpe.
   destruct (st_add (l_state l) "" (flag_fact id) (e_now e) (e_fresh e) None) as [s' o] eqn:Ea.
-  cbn [fst snd] in H. destruct o as [pid| | |]; cbn [omap obind] in H; try discriminate.
+  cbn [fst snd] in H, Hpe. destruct o as [pid| | |]; cbn [omap obind] in H; try discriminate.
   injection H as <-. cbn [l_state upd_state].
   destruct (add_visible _ _ _ _ _ _ _ _ Hwf Ea) as (_ & fact & Hp & Hl & _ & Ho).
-  rewrite prepare_flag in Hp. injection Hp as <- <-. split; assumption.
+  rewrite prepare_flag in Hp. injection Hp as <- <-. repeat split; assumption.
 Qed.
 
 Theorem disable_then_not_enabled : disable_then_not_enabled_statement.
 Proof.
   intros l c e id l' now' Hwf Hn H Hlive.
-  destruct (disable_adds_flag l c e id l' Hwf Hn H) as [Hflag _].
-  rewrite rule_enabled_live; [|exact Hlive|].
+  destruct (disable_adds_flag l c e id l' Hwf Hn H) as (Hflag & _ & Hpe).
+  rewrite rule_enabled_live; [|exact Hlive| |exact Hpe].
   - cbn [snd]. unfold rule_enabled_pure. destruct (negb (enabled_pure l')); [reflexivity|].
     unfold prop_val. rewrite Hflag. reflexivity.
   - intros f Hf. rewrite Hflag in Hf. injection Hf as <-. apply flag_never_expired.
@@ -202,11 +216,11 @@ Proof. intros (H & _) Hnf f Hf. apply Hnf. eapply fsub_lookup; eassumption. Qed.
 
 Lemma get_prop_no_flag l id now : no_flag l id -> snd (get_prop l id "disabled" now) = None.
 Proof.
-  intros Hnf. rewrite get_prop_pid. unfold st_get.
+  intros Hnf. rewrite get_prop_pid.
+  pose proof (st_get_snd (l_state l) (prop_id id "disabled") now) as Hs.
+  destruct (st_get (l_state l) (prop_id id "disabled") now) as [s1 o]. cbn [snd] in Hs. subst o.
   destruct (alookup (prop_id id "disabled") (st_facts (l_state l))) as [f|] eqn:El; [|reflexivity].
-  destruct (fact_expired f now).
-  - destruct (st_rem (l_state l) (prop_id id "disabled") now) as [s1 [b|e|w|]]; reflexivity.
-  - cbn [snd]. apply Hnf. exact El.
+  destruct (fact_expired f now); [reflexivity|]. cbn [snd]. apply Hnf. exact El.
 Qed.
 
 Lemma rule_enabled_no_flag l id now :
@@ -236,12 +250,13 @@ Qed.
 Theorem disable_is_per_id : disable_is_per_id_statement.
 Proof.
   intros l c e id id' l' now' Hwf Hn H Hne Hn'.
-  destruct (disable_adds_flag l c e id l' Hwf Hn H) as [Hflag Hother].
+  destruct (disable_adds_flag l c e id l' Hwf Hn H) as (Hflag & Hother & Hpe).
   assert (Hn'' : nothing_expired l' now').
-  { intros j f Hj. destruct (String.eqb_spec j (prop_id id "disabled")) as [->|Hjne].
+  { split; [|exact Hpe].
+    intros j f Hj. destruct (String.eqb_spec j (prop_id id "disabled")) as [->|Hjne].
     - rewrite Hflag in Hj. injection Hj as <-. apply flag_never_expired.
-    - rewrite (Hother j Hjne) in Hj. eapply Hn'; exact Hj. }
-  rewrite !rule_enabled_live by (apply nothing_expired_live; assumption).
+    - rewrite (Hother j Hjne) in Hj. eapply (proj1 Hn'); exact Hj. }
+  rewrite !rule_enabled_noexp_pure by assumption.
   cbn [snd]. unfold rule_enabled_pure, enabled_pure, prop_val.
   rewrite (Hother (prop_id "" "enabled")) by apply prop_id_disabled_not_enabled.
   rewrite (Hother (prop_id id' "disabled")); [reflexivity|].
@@ -255,12 +270,14 @@ Lemma rem_rule_no_flag l c e id l' b :
 Proof.
   intros Hn H. unfold loc_rem_rule in H. apply gated_ok_noexp in H; [|exact Hn].
   pose proof (st_Rem_fsub (l_state l) id (e_now e)) as Hsub.
-  destruct (st_Rem (l_state l) id (e_now e)) as [s o]. cbn [fst] in Hsub.
+  pose proof (st_Rem_pending (l_state l) id (e_now e)) as Hpe.
+  destruct (st_Rem (l_state l) id (e_now e)) as [s o]. cbn [fst] in Hsub, Hpe.
   destruct o as [b0|x|w|]; try discriminate.
   set (l1 := upd_state l s) in *.
   assert (Hn1 : nothing_expired l1 (e_now e)).
-  { eapply nothing_expired_lsub; [|exact Hn]. apply lsub_upd. exact Hsub. }
-  rewrite (get_prop_live l1 id "disabled" (e_now e)) in H by (apply nothing_expired_live; exact Hn1).
+  { eapply nothing_expired_lsub; [|exact Hpe|exact Hn]. apply lsub_upd. exact Hsub. }
+  rewrite (get_prop_live l1 id "disabled" (e_now e)) in H
+    by (try (apply nothing_expired_live; exact Hn1); exact (proj2 Hn1)).
   destruct (prop_val l1 id "disabled") as [v|] eqn:Ev.
   - unfold lift in H.
     pose proof (st_Rem_gone (l_state l1) (prop_id id "disabled") (e_now e)) as Hg.
@@ -446,9 +463,10 @@ Proof. induction ps as [|p r IH]; [reflexivity|]. cbn [map jS]. rewrite IH. refl
 
 Lemma get_parents_of_fact l ps now :
   alookup (prop_id "" "parents") (st_facts (l_state l)) = Some (parents_fact ps) ->
+  st_pending (l_state l) = [] ->
   get_parents l now = (l, Ok ps).
 Proof.
-  intros Hl. unfold get_parents. rewrite get_prop_live.
+  intros Hl Hpe. unfold get_parents. rewrite get_prop_live; [| |exact Hpe].
   - unfold prop_val. rewrite Hl. cbn [jget parents_fact alookup String.append String.eqb Ascii.eqb Bool.eqb].
     rewrite forallb_JStr, map_jS_JStr. reflexivity.
   - intros f Hf. rewrite Hl in Hf. injection Hf as <-. reflexivity.
@@ -460,12 +478,14 @@ Lemma set_parents_adds l c e ps l' id :
   alookup (prop_id "" "parents") (st_facts (l_state l')) = Some (parents_fact ps) /\
   (forall j, j <> prop_id "" "parents" ->
              alookup j (st_facts (l_state l')) = alookup j (st_facts (l_state l))) /\
-  l_readonly l' = l_readonly l /\ l_max l' = l_max l.
+  l_readonly l' = l_readonly l /\ l_max l' = l_max l /\ st_pending (l_state l') = [].
 Proof.
   intros Hwf Hn H. unfold loc_set_parents in H. apply gated_ok_noexp in H; [|exact Hn].
   unfold lift in H. rewrite set_prop_fact_parents in H.
+  pose proof (st_add_pending (l_state l) "" (parents_fact ps) (e_now e) (e_fresh e) None) as Hpe.
+  rewrite (proj2 Hn) in Hpe.
   destruct (st_add (l_state l) "" (parents_fact ps) (e_now e) (e_fresh e) None) as [s' o] eqn:Ea.
-  cbn [fst snd] in H. destruct o as [pid| | |]; cbn [omap obind] in H; try discriminate.
+  cbn [fst snd] in H, Hpe. destruct o as [pid| | |]; cbn [omap obind] in H; try discriminate.
   injection H as <- _. cbn [l_state upd_state].
   destruct (add_visible _ _ _ _ _ _ _ _ Hwf Ea) as (_ & fact & Hp & Hl & _ & Ho).
   rewrite prepare_parents in Hp. injection Hp as <- <-. repeat split; assumption.
@@ -474,6 +494,6 @@ Qed.
 Theorem parents_take_effect_immediately : parents_take_effect_immediately_statement.
 Proof.
   intros l c e ps l' id now Hwf Hn H.
-  destruct (set_parents_adds l c e ps l' id Hwf Hn H) as (Hl & _).
-  apply get_parents_of_fact. exact Hl.
+  destruct (set_parents_adds l c e ps l' id Hwf Hn H) as (Hl & _ & _ & _ & Hpe).
+  apply get_parents_of_fact; assumption.
 Qed.
